@@ -13,4 +13,5 @@ LEVEL_NOTE = ("Trusted: Coq kernel, extraction, OCaml driver, Rust harness (its 
 TECHNIQUE = "Coq proof (invariant preserved by crash+reopen, prefix refinement) of a hand-written Gallina model + crash-state enumeration against the real Database"
 RULE = ("histories with crashes during the last acknowledged-or-not append: only the first k records of the transaction (k = 0..n) plus a torn prefix of the next record survive (rest zero-filled); "
         "then reopen, all read APIs, further appends; non-trivial = >=2 appends, one succeeded")
-monitor_e = storelib.monitor_kinds({"CR", "RO"}, "recover", after_crash_all=True)
+ENV = {"LD_PRELOAD": storelib.ensure_svio(), "SV_SYNC_MS": "40", "SV_HISTORIES_QUICK": "90", "SV_HISTORIES_THOROUGH": "450"}
+monitor_e = storelib.monitor_kinds({"CR", "RO"}, "recover", after_crash_all=True, durable=True)
